@@ -75,4 +75,21 @@ def mapM {α β ε : Type} (f : α → Except ε β) : List α → Except ε (Li
       | .error e => .error e
       | .ok ys => .ok (y :: ys)
 
+/-! ### additive block (trb): loops with `break` / `continue` -/
+
+/-- how one iteration of a loop body ended: fell off the end or `continue` (`next`), or `break` (`brk`); with the loop-carried variables -/
+inductive Step (σ : Type) where
+  | next (s : σ)
+  | brk (s : σ)
+
+/-- `for x in xs: body` where the body may `break` / `continue` (no `return` inside) -/
+def forEachBrk {α σ ε : Type} (xs : List α) (body : α → σ → Except ε (Step σ)) (s : σ) : Except ε σ :=
+  match xs with
+  | [] => .ok s
+  | x :: rest =>
+    match body x s with
+    | .error e => .error e
+    | .ok (.brk s') => .ok s'
+    | .ok (.next s') => forEachBrk rest body s'
+
 end I18n.PyKit
